@@ -83,6 +83,13 @@ def variants(rng, text, toks, full):
                 if ws == b"" and last.kind in ("number", "literal") and last.open == 0 and junk[:1] in b"0123456789.eE+-x1nul":
                     continue  # would change the value token itself rather than follow it
                 yield "trailing-garbage", "top", text[:vend] + ws + junk, True, (vend, vend + len(ws))
+    # ... and trailing bytes that begin with a slash: in default mode that starts a comment (which may be malformed: not asserted there), but for a STRICT parser there are
+    # no comments -- the slash is a trailing byte like any other: refused without ALLOW_TRAILING_CHARS, left alone (and the end reported) with it
+    if toks[-1].kind not in ("number", "literal") or toks[-1].open != 0:
+        for junk in (b"/", b"/x", b"//c", b"/*c*/", b"/ 1"):
+            for ws in (b"", b" "):
+                if full or rng.random() < 0.3:
+                    yield "trailing-slash", "top", text[:vend] + ws + junk, "strict-only", (vend, vend + len(ws))
 
 
 def shard_fn(shard, nshards, seed, tier, exe, ndocs):
@@ -112,14 +119,14 @@ def shard_fn(shard, nshards, seed, tier, exe, ndocs):
             # VALIDATE_UTF8 is orthogonal (the documents are valid UTF-8 apart from injected control bytes, which are ASCII): it must not change any outcome
             u8 = 0x10 if rng.random() < 0.35 and all(b < 0x80 or True for b in vt[:0]) and _is_utf8(vt) else 0
             cmds = ["P %d 0 1 x%s" % (1 | u8, h), "P %d 0 1 x%s" % (u8, h)]
-            if kind == "trailing-garbage":
+            if kind in ("trailing-garbage", "trailing-slash"):
                 cmds.append("P %d 0 1 x%s" % (3 | u8, h))
             # (not for forms that FOLLOW the complete value: the call that completes the value rightly reports success before the rest is fed)
-            chunked = rng.random() < 0.5 and kind != "trailing-garbage" and not ctx.startswith("after-last")
+            chunked = rng.random() < 0.5 and kind not in ("trailing-garbage", "trailing-slash") and not ctx.startswith("after-last")
             if chunked:
                 # the same strict parse fed in pieces of 1..7 bytes: where the calls are cut must not let an extension through
                 cmds.append("LPC %d 0 %d x%s" % (1 | u8, rng.choice([1, 1, 2, 3, 5, 7]), h))
-            inside = kind != "trailing-garbage" and not ctx.startswith("after-last")
+            inside = kind not in ("trailing-garbage", "trailing-slash") and not ctx.startswith("after-last")
             xt = dchunk = None
             if inside and rng.random() < 0.5:
                 # strict mode with ALLOW_TRAILING_CHARS on top: that flag is about what FOLLOWS the value; an extension inside the value is refused as before
@@ -131,7 +138,7 @@ def shard_fn(shard, nshards, seed, tier, exe, ndocs):
                 # (without VALIDATE_UTF8 unless the text is ASCII: a call that ends inside a multi-byte character is an error under that flag, by design)
                 cmds.append("LPC %d 0 %d x%s" % (u8 if all(b < 0x80 for b in vt) else 0, rng.choice([1, 1, 2, 3, 5, 7]), h))
             reuse = None
-            if kind != "trailing-garbage" and rng.random() < 0.2:
+            if kind not in ("trailing-garbage", "trailing-slash") and rng.random() < 0.2:
                 # a strict parser that has been used before: the ORIGINAL document first (accepted), a reset (always / only as the API requires), then the variant --
                 # strictness is configuration of the parser, not state of one document
                 reuse = len(cmds)
@@ -167,7 +174,7 @@ def shard_fn(shard, nshards, seed, tier, exe, ndocs):
             sh.violation("C16/strict-accepts/%s" % kind, "strict mode accepted %s at %s: %r" % (kind, ctx, vt[:100]), rep)
         if chunked:
             sh.count("strict_parses_fed_in_chunks")
-            if parsed[3 if kind == "trailing-garbage" else 2][0] == 0:
+            if parsed[3 if kind in ("trailing-garbage", "trailing-slash") else 2][0] == 0:
                 sh.violation("C16/strict-accepts-when-chunked/%s" % kind, "strict mode accepted %s at %s when the text was fed in chunks (%s): %r" % (kind, ctx, cmdmap[cid][-1].split()[3], vt[:100]), rep)
         if xt is not None:
             sh.count("strict_with_allow_trailing_on_extensions_inside_the_value")
@@ -180,7 +187,9 @@ def shard_fn(shard, nshards, seed, tier, exe, ndocs):
                 sh.violation("C16/default-rejects-when-chunked/%s" % kind, "default mode rejected %s at %s (error %d) when the text was fed in chunks (%s): %r" % (kind, ctx, cerr, cmdmap[cid][dchunk].split()[3], vt[:100]), rep)
             elif cdump.split(" | ")[0] != ddump:
                 sh.violation("C16/default-value-changed-when-chunked/%s" % kind, "default mode gives another value for %s at %s when fed in chunks: %r" % (kind, ctx, vt[:100]), dict(rep, one_shot=ddump[:300], chunked=cdump[:300]))
-        if derr != 0:
+        if neutral == "strict-only":
+            pass   # (default mode: a comment, possibly malformed -- two things at once, not asserted)
+        elif derr != 0:
             sh.violation("C16/default-rejects/%s" % kind, "default mode rejected %s at %s with error %d: %r" % (kind, ctx, derr, vt[:100]), rep)
         else:
             want = None
@@ -190,7 +199,7 @@ def shard_fn(shard, nshards, seed, tier, exe, ndocs):
                 want = refjson.dump(refjson.parse(vt, allow_ctrl=True))
             if want is not None and ddump != want:
                 sh.violation("C16/default-value-changed/%s" % kind, "default mode value differs from the original document's for %s at %s: %r" % (kind, ctx, vt[:100]), dict(rep, expected_dump=want[:500], observed=ddump[:500]))
-        if kind == "trailing-garbage":
+        if kind in ("trailing-garbage", "trailing-slash"):
             terr, tend, tdump = parsed[2]
             lo, hi = extra
             if terr != 0:
@@ -199,7 +208,7 @@ def shard_fn(shard, nshards, seed, tier, exe, ndocs):
                 sh.violation("C16/strict-allow-trailing-value", "STRICT|ALLOW_TRAILING_CHARS value differs on %r" % (vt[:100],), rep)
             elif not lo <= tend <= hi:
                 sh.violation("C16/strict-allow-trailing-end", "reported end %d is not where the value ended (%d..%d) for %r" % (tend, lo, hi, vt[:100]), rep)
-            if not lo <= dend <= hi and derr == 0:
+            if not lo <= dend <= hi and derr == 0 and kind == "trailing-garbage":
                 sh.violation("C16/default-trailing-end", "default mode reported end %d, value ended at %d..%d for %r" % (dend, lo, hi, vt[:100]), rep)
         sh.count("kind.%s" % kind)
         sh.count("position.%s.%s" % (kind.split("-")[0], ctx))
